@@ -179,6 +179,12 @@ def run(ctx, host=None):
     if not found:
         chk.ok(R4, qp, f'{len(mp.sites.tracked_unlinks)} tracked-unlink site(s)', detail='loose files unlinked only for keys staged and committed by the call itself')
 
+    # the object found through the refresh-and-retry fallback must be handed out with the same stream semantics as on the main path: the stream rules of C07 are
+    # necessary conditions here too (they cover every reader construction site of the read funnel, the fallback ones included)
+    if host is None:
+        from ..report import host_modules
+        host_modules(chk, ctx, ['C07'])
+
     return chk.finish(
         explanation=('Typestate on the cached operation session (possibly-pinned at entry / none / fresh) along all paths: the read funnel answers MISSING only after '
                      'probe -> refresh -> query on the new session; list_all_objects (and any other public pure view with its own index query that is not a tabled '
